@@ -339,6 +339,9 @@ func runJSON(r *core.Run, unit *int64) {
 				r.Violate(sig, fmt.Sprintf("channel %s flags %v: %s", ch.name, fl, msg), c)
 			}
 			r.Nontrivial("json|" + ch.name + "|" + strings.Join(fl, ""))
+			if ch.name == "file:-V" && len(fl) == 2 {
+				r.Sample(map[string]any{"kind": "json", "channel": ch.name, "flags": fl, "documents": len(ds), "first_output_bytes": string(res.Stdout[:min(len(res.Stdout), 120)])})
+			}
 		}
 	}
 	r.Section("json")
